@@ -1,7 +1,7 @@
 from common import *
 
 PROPERTY = "C01"
-QUICK_SAMPLE = 0
+QUICK_SAMPLE = 10
 Z = "poulpy-cpu-ref/src/reference/znx/sampling.rs"
 VS = "poulpy-cpu-ref/src/reference/vec_znx/sampling.rs"
 U64N = [("poulpy_hal::source::Source::next_u64n", "crate::c06::next_u64n_stub")]
@@ -51,7 +51,8 @@ def normal_instances():
 
 CORE_STUBS = [("poulpy_hal::source::Source::next_u64n", "crate::stubs::next_u64n_stub"),
               ("poulpy_cpu_ref::reference::znx::znx_add_normal_f64_ref", "crate::stubs::add_normal_stub"),
-              ("f64::exp2", "crate::stubs::exp2_stub"), ("f64::log2", "crate::stubs::log2_stub"), ("std::fmt::format", "crate::stubs::fmt_stub")]
+              ("f64::exp2", "crate::stubs::exp2_stub"), ("f64::log2", "crate::stubs::log2_stub"), ("std::fmt::format", "crate::stubs::fmt_stub"),
+              ("poulpy_cpu_ref::hal_defaults::scratch::take_slice_aligned", "crate::stubs::take_slice_aligned_stub")]
 
 
 def lwe_instances():
@@ -74,14 +75,64 @@ def lwe_instances():
     return out
 
 
+PROBE_FUNCS = ["hk_core/src/probe_full.rs: Module<Probe> = repository hal_impl_*! macros + fft64/znx.rs bindings + impl_core_default_methods! over substituted leaf kernels (identity FFT of size 1, exact integer reim arithmetic)",
+               "poulpy-cpu-ref/src/hal_defaults/{vec_znx,vec_znx_big,vec_znx_dft,svp_ppol,scratch}.rs", "poulpy-cpu-ref/src/reference/fft64/{vec_znx_dft,svp,vec_znx_big}.rs", "poulpy-cpu-ref/src/reference/vec_znx/*.rs"]
+
+
+def glwe_tmp(n, size):
+    enc = max(8 * n * size, 24 * n) + 2 * 8 * n * size + 24 * n
+    dec = 8 * n * size + max(8 * n * size, 24 * n)
+    return enc, dec
+
+
+def secret_code(n, rank, variant):
+    # base-3 digits (0 -> 0, 1 -> 1, 2 -> -1), column-major; variant 0: mixed signs, 1: zero secret, 2: all -1
+    digs = []
+    for c in range(rank):
+        for i in range(n):
+            digs.append({0: (2, 1, 0, 1, 2, 2, 1, 0)[(c * n + i) % 8], 1: 0, 2: 2}[variant])
+    return sum(d * 3**i for i, d in enumerate(digs)), [{0: 0, 1: 1, 2: -1}[d] for d in digs]
+
+
+def glwe_instances():
+    out = []
+    n = 2
+    shapes = []  # (b, k, ps, bo, ko)
+    for b in (12, 17):
+        for k in (b, b + 1, 2 * b + 1):
+            size = -(-k // b)
+            for ps in sorted({size, max(size - 1, 1)}):
+                shapes.append((b, k, ps, b, k))
+    # output plaintext narrower / of another radix than the ciphertext
+    shapes += [(12, 13, 2, 12, 12), (5, 15, 3, 12, 12), (12, 24, 2, 5, 20), (8, 24, 3, 17, 17), (5, 15, 2, 3, 15)]
+    for b, k, ps, bo, ko in shapes:
+        size = -(-k // b)
+        for rank in (1, 2):
+            for variant in (0, 1, 2):
+                sp, sec = secret_code(n, rank, variant)
+                enc, dec = glwe_tmp(n, size)
+                slack = 192
+                symscr = size == 1
+                ar = (max(enc, dec) + slack + 7) // 8
+                core = (b, k, ps, bo, ko, rank, variant) in ((12, 12, 1, 12, 12, 1, 0), (17, 35, 3, 17, 35, 2, 0), (5, 15, 3, 12, 12, 1, 0))
+                out.append(Instance(crate="hk_core", family="glwe.encrypt_decrypt", name=f"c01_glwe_n{n}_b{b}_k{k}_ps{ps}_o{bo}_{ko}_r{rank}_v{variant}",
+                                    call=f"crate::c01_glwe::glwe_roundtrip::<{n}, {b}, {k}, {ps}, {bo}, {ko}, {slack}, {ar}, {bool_rs(symscr)}>({rank}, {sp})", unwind=max(3 * size, 2 * n * (rank + 1), 3 * -(-ko // bo)) + 10,
+                                    params={"n": n, "base2k": b, "k": k, "rank": rank, "pt_limbs": ps, "ct_limbs": size, "out_base2k": bo, "out_k": ko, "secret": sec, "scratch_slack_bytes": slack, "scratch_contents": "symbolic" if symscr else "fixed pattern 0x5a"},
+                                    symbolic=["message digits (normalised, incl. extremes)", "mask words", "error |e|<=bound*scale", "prior ciphertext content"] + (["all scratch bytes"] if symscr else []), stubs=CORE_STUBS,
+                                    functions=["poulpy-core/src/encryption/glwe.rs::glwe_encrypt_sk / glwe_encrypt_sk_internal", "poulpy-core/src/decryption/glwe.rs::glwe_decrypt_default",
+                                               "poulpy-core/src/layouts/prepared/glwe_secret.rs::glwe_secret_prepare"] + PROBE_FUNCS,
+                                    timeout=2400, mem_gb=24, core=core))
+    return out
+
+
 def instances(tier, seed):
-    return normal_instances() + lwe_instances()
+    return normal_instances() + lwe_instances() + glwe_instances()
 
 
 META = {
-    "bounds": "base2k 1..63 for the uniform digit kernel; Gaussian kernels: bound in [1,2^62), 0..2 rejections; error position: base2k in {3,12,17,50,52}, k up to 3 limbs",
-    "outside": "statistics (empirical sigma, uniformity as a frequency), ChaCha8 / ziggurat themselves, seed branching (Source::branch: real ChaCha needs cpuid, unsupported), information flow through encryption (needs the DFT products; DESIGN §2.4)",
+    "bounds": "GLWE secret-key encrypt->decrypt on Module<Probe>: n=2 (size-1 FFT = identity; float leaf kernels replaced by exact integer kernels), rank 1..2, base2k in {12,17}, k in {b,b+1,2b+1}, plaintext with size or size-1 limbs, three concrete ternary secrets, scratch = declared size + 192 bytes; LWE: n_lwe=2; base2k 1..63 for the uniform digit kernel; Gaussian kernels: bound in [1,2^62), 0..2 rejections; error position: base2k in {3,12,17,50,52}, k up to 3 limbs",
+    "outside": "statistics (empirical sigma, uniformity as a frequency), ChaCha8 / ziggurat themselves, seed branching (Source::branch: real ChaCha needs cpuid, unsupported), IEEE rounding of the real f64 kernels and the FFT for n>=4 (C07), public-key / compressed encryption unless listed in the families, ring degrees n>=4 for the end-to-end harnesses",
     "assumptions": ["Source::next_u64n replaced by a stub drawing one arbitrary word (its 4-line body is read, not executed)", "Gaussian draw replaced by an arbitrary f64 through the real generic znx_*_dist_f64_ref; the *_normal_* copies of that loop are covered for position/scale only"],
-    "stubs": ["poulpy_hal::source::Source::next_u64n", "znx_fill_normal_f64_ref / znx_add_normal_f64_ref (position harness only)"],
+    "stubs": ["poulpy_hal::source::Source::next_u64n", "znx_fill_normal_f64_ref / znx_add_normal_f64_ref (position harness only)", "f64::exp2 / f64::log2 (exact / constant)", "std::fmt::format", "take_slice_aligned (private, hal_defaults/scratch.rs) replaced by a copy deriving the 64-byte padding from the window offset inside the aligned harness arena instead of the pointer integer (same function on these arenas; the real one is decided by C12 scratch.take_slice*)"],
 }
 THOROUGH_SAMPLE = 6
